@@ -22,7 +22,9 @@ EXPLANATION = (
     'decoding what was encoded returns the same call; (iii) allelePair(diploidGtIndex(j,k)) = (j,k) and diploidGtIndex(allelePair(i)) = i. '
     'The sqrt-based inverse (Python allele_pair_sqrt, Scala allelePairSqrt) is proved against its contract tri(k)+j = i, 0<=j<=k '
     'by Float64 fp.sqrt queries split into octaves [2^b, 2^(b+1)) and is used through that contract in (ii)/(iii). '
-    'Bounds: repr < 2^20 (quick), < 2^29 (thorough). Scala counterexamples are replayed on a concrete evaluation of the parsed '
+    'Bounds: packing, sign wrap, layout and the decoder\'s bit handling (everything that does not need the sqrt inverse) are decided '
+    'for repr < 2^29 = the engine maximum in BOTH tiers; the sqrt contracts, the full round trip and the engine bijection for repr < 2^20 '
+    '(quick) / < 2^29 (thorough). Scala counterexamples are replayed on a concrete evaluation of the parsed '
     'Scala AST (model level: there is no Scala compiler in the sandbox); Python counterexamples on the real functions.'
 )
 
@@ -89,6 +91,8 @@ def sqrt_cut_py(ctx, bound):
     """allele_pair_sqrt(i) read through its contract (proved separately on the real function for 36 <= i < bound)."""
     def handler(it, args, kwargs):
         i = it.it(args[0])
+        if getattr(it, '_cutlog', None) is not None:
+            it._cutlog.append(i)
         it.fresh += 1
         j = z3.BitVec(f'cut_j!{it.fresh}', it.W)
         k = z3.BitVec(f'cut_k!{it.fresh}', it.W)
@@ -140,11 +144,14 @@ def explore_python(ctx, ploidy, bound, with_decode):
             out['enc'] = ('raise', e.typ)
             return out
         if with_decode and len(w.vals) == 1:
+            it_._cutlog = []
             try:
                 res = it_.call(types._tcall._convert_from_encoding, [tc, Reader(w.vals[0])])
                 out['dec'] = ('ok', res)
             except pyk.PyRaise as e:
                 out['dec'] = ('raise', e.typ)
+            out['cut_args'] = list(it_._cutlog)
+            it_._cutlog = None
         return out
     paths = it.explore(thunk)
     return it, a, ph, paths
@@ -258,23 +265,26 @@ def check_encode_cex(ctx, alleles, phased):
 
 # ---- obligations ---------------------------------------------------------------------------------------
 def encode_and_roundtrip(R, ctx, bound):
+    """`bound`: range on which the sqrt contract is proved in this tier (2^20 quick, 2^29 thorough).  Everything that does
+    not need the sqrt inverse (packing, sign wrap, decode's bit handling) is decided on the full engine range in both tiers."""
     status_cache = {}
+    full = MAXREPR
     for ploidy in (0, 1, 2):
         t0 = time.time()
-        it, a, ph, paths = explore_python(ctx, ploidy, bound, with_decode=True)
+        it, a, ph, paths = explore_python(ctx, ploidy, full, with_decode=True)
         # engine side: explored per Python path prefix would multiply paths; it is independent, so explore it separately
         it2 = pyk.Interp(width=64, feas_timeout_ms=400)
         for c in it.pre:
             it2.assume(c)
         spaths = it2.explore(lambda i: scala_pack(ctx, i, ploidy, a, ph))
-        dom, rep = domain(ploidy, a, ph, bound)
+        dom, rep = domain(ploidy, a, ph, full)
         pre = list(it.pre) + [dom]
         R.log(f'[C34] ploidy {ploidy}: {len(paths)} python paths, {len(spaths)} engine paths ({time.time() - t0:.1f}s)')
         R.states += len(paths) + len(spaths)
         want64 = (z3.If(ph.t, z3.BitVecVal(1, 64), z3.BitVecVal(0, 64)) | z3.BitVecVal(ploidy << 1, 64) | (rep << 3))
         want32 = z3.Extract(31, 0, want64)
         py_raise, py_side, py_layout, py_ok = [], [], [], []
-        dec_raise, dec_diff, dec_side, dec_reach = [], [], [], []
+        dec_raise, dec_diff, dec_side, dec_reach, dec_struct = [], [], [], [], []
         for p in paths:
             pc = z3.And(*p.pc) if p.pc else z3.BoolVal(True)
             side = z3.And(*p.side) if p.side else z3.BoolVal(True)
@@ -305,6 +315,9 @@ def encode_and_roundtrip(R, ctx, bound):
             same = [it.truth_term(ph2) == ph.t] + [it.it(x) == it.it(y) for x, y in zip(al1, al2)]
             dec_reach.append(pc)
             dec_diff.append(z3.And(pc, side, z3.Not(z3.And(*same))))
+            # bit handling of the decoder: phased bit preserved and the index handed to the sqrt inverse is the representation
+            struct = [it.truth_term(ph2) == ph.t] + [ci == rep for ci in out.get('cut_args', [])]
+            dec_struct.append(z3.And(pc, side, z3.Not(z3.And(*struct))))
         sc_err, sc_ok = [], []
         for p in spaths:
             pc = z3.And(*p.pc) if p.pc else z3.BoolVal(True)
@@ -327,21 +340,27 @@ def encode_and_roundtrip(R, ctx, bound):
         tw.add(*pre)
         tw.add(orr(dec_reach))
         reach_dec = str(tw.check()) == 'sat'
+        FB, CB = f'2^{full.bit_length() - 1}', f'2^{bound.bit_length() - 1}'
+        contract = '' if bound >= full else f'; sqrt contract proved to {CB} in this tier, to {FB} in thorough'
+        inb = rep < bound
         qs = [
-            ('(i) Python encode does not raise on a representable call', orr(py_raise), reach),
-            ('(i) Python integer operations stay inside the 64-bit encoding (no overflow side condition fails)', orr(py_side), reach),
-            ('(i) engine packs every representable call (no fatal/assert)', orr(sc_err), reach),
-            ('(i) Python wire Int == engine packed Int', mismatch, reach),
-            ('(i)/(iii) Python wire Int == phased | ploidy<<1 | repr<<3 with repr in VCF order', orr(py_layout), reach),
-            ('(i)/(iii) engine packed Int == phased | ploidy<<1 | repr<<3 with repr in VCF order', sc_layout, reach),
-            ('(ii) Python decode of its own encoding does not raise', orr(dec_raise), reach_dec),
-            ('(ii) Python decode(encode(call)) == call (allele_pair_sqrt through its contract)', orr(dec_diff), reach_dec),
+            (FB, '(i) Python encode does not raise on a representable call', orr(py_raise), reach),
+            (FB, '(i) Python integer operations stay inside the 64-bit encoding (no overflow side condition fails)', orr(py_side), reach),
+            (FB, '(i) engine packs every representable call (no fatal/assert)', orr(sc_err), reach),
+            (FB, '(i) Python wire Int == engine packed Int (signed 32-bit)', mismatch, reach),
+            (FB, '(i)/(iii) Python wire Int == phased | ploidy<<1 | repr<<3 as a signed 32-bit value, repr in VCF order', orr(py_layout), reach),
+            (FB, '(i)/(iii) engine packed Int == phased | ploidy<<1 | repr<<3 as a signed 32-bit value, repr in VCF order', sc_layout, reach),
+            (FB, f'(ii) Python decode of its own encoding does not raise (allele_pair_sqrt through its contract{contract})',
+             orr(dec_raise), reach_dec),
+            (FB, '(ii) Python decode recovers the phased bit and hands the sqrt inverse exactly the allele representation '
+             '(signed/unsigned handling of the wire Int)', orr(dec_struct), reach_dec),
+            (CB, '(ii) Python decode(encode(call)) == call (allele_pair_sqrt through its contract)', z3.And(orr(dec_diff), inb), reach_dec),
         ]
         if ploidy == 2 and bound > (1 << 24):
             # the full-range query is the hardest of the check; the same obligation on repr < 2^24 is kept as a fallback claim
-            qs.append(('(ii) Python decode(encode(call)) == call, restricted to repr < 2^24', z3.And(orr(dec_diff), rep < (1 << 24)), reach_dec))
-        for label, vio, rch in qs:
-            name = f'ploidy {ploidy}, phased symbolic, repr < 2^{bound.bit_length() - 1}: {label}'
+            qs.append(('2^24', '(ii) Python decode(encode(call)) == call', z3.And(orr(dec_diff), rep < (1 << 24)), reach_dec))
+        for rng, label, vio, rch in qs:
+            name = f'ploidy {ploidy}, phased symbolic, repr < {rng}: {label}'
             if z3.is_false(z3.simplify(vio)):
                 R.ob(name, 'discharged' if rch else 'not_discharged', 0.0, {'note': 'no such path'}, nontrivial=rch)
                 continue
@@ -658,8 +677,10 @@ def small_tables(R, ctx):
 def run(R):
     quick = R.tier == 'quick'
     bound = (1 << 20) if quick else MAXREPR
-    R.bounds = {'ploidy': '0, 1, 2', 'phased': 'symbolic', 'allele representation (VCF genotype index / haploid allele)':
-                f'< 2^{bound.bit_length() - 1}' + ('' if not quick else ' (engine maximum is 2^29: thorough tier)'),
+    R.bounds = {'ploidy': '0, 1, 2', 'phased': 'symbolic',
+                'allele representation (VCF genotype index / haploid allele), packing / sign wrap / layout / decoder bit handling':
+                '< 2^29 (engine maximum), both tiers',
+                'allele representation, sqrt contracts / full round trip / engine bijection': f'< 2^{bound.bit_length() - 1}',
                 'allele indices': 'symbolic, >= 0, diploid alleles < 2^20 before the representation bound applies'}
     R.assume('Scala semantics are those implemented in vt/scalak.py (JVM Int wrap-around, truncating /, 5-bit shift counts, '
              'Double.toInt saturating, Math.sqrt correctly rounded); no Scala compiler is available, so engine-side '
